@@ -18,9 +18,30 @@
 (*   schema  create-collection: "basic" | "v25" (a field is nullable or has  *)
 (*           a default value - Milvus 2.5 schema attributes)                 *)
 (*   rid     create-collection: a replicate id is configured                 *)
+(*   map     the task's db / collection name mapping (UpdateNameMappings)    *)
+(*           relative to the object the message is about (the database of a  *)
+(*           database op, the collection of an index / load / release /      *)
+(*           partition op or event, every member collection of a flush, the  *)
+(*           collection - or "*" of a database - a privilege is operated on):*)
+(*           "none"  no mapping at all                                       *)
+(*           "cover" an entry matches the object (collection-level entry,    *)
+(*                   whole-database entry, or both: one shape per salt)      *)
+(*           "other" entries exist but none matches (other database, other   *)
+(*                   collection of the same database); user / role ops have  *)
+(*                   no such object: any mapping is "other" for them         *)
+(*   optype  operate-user-role / operate-privilege: which of the two         *)
+(*           opposite requests the message is: "grant" (Grant, AddUserToRole)*)
+(*           or "revoke" (Revoke, RemoveUserFromRole); "na" otherwise        *)
 (* Field CONTENTS (names, index params, passwords, schemas ...) are opaque   *)
 (* here: the driver draws them with rapid inside the class chosen by the     *)
 (* model and reports, per request, one equality bit per field group.         *)
+(* Under a name mapping the NAME groups are judged against the image of the  *)
+(* source name: "db" / "coll" / flush members = the image under a matching   *)
+(* entry (C09 says which one; any matching entry is accepted here), the      *)
+(* source name when nothing matches; "priv" (object type, object name and    *)
+(* database, privilege) accepts the source names as well as their image.     *)
+(* Every other group (index, field, params, replica, user, role, password,   *)
+(* optype, schema ...) is plain equality with the source under every mapping.*)
 (*                                                                           *)
 (* Design part : Build(m) = what the code as built does for m, one operator  *)
 (*               per builder family; deviation switch SchemaLossy.           *)
@@ -34,7 +55,12 @@ CONSTANTS MaxOps,       \* steps per plan
                         \*        nullable / default_value of a source field
           WithFail,     \* enumerate failing downstream calls
           Pres,         \* subset of {"none", "hop"}: replication stamp already present on the source message
-          Salts         \* sampling indices: the driver draws one random content per (class, salt, VERIF_SEED)
+          Salts,        \* sampling indices: the driver draws one random content per (class, salt, VERIF_SEED)
+          Maps,         \* subset of {"none", "cover", "other"}: name-mapping classes to enumerate
+          MapRebuildLossy \* negative control (FALSE = as built): when a mapping entry covers the object of a pass-through
+                        \*        request (the RBAC builders hand the source request on as it is), the request is REBUILT
+                        \*        from its entity with the target names and every field outside the entity is left at its
+                        \*        zero value - the operation type becomes Grant / AddUserToRole whatever the source said
 
 DbKinds   == {"CreateDatabase", "DropDatabase", "AlterDatabase"}
 RbacKinds == {"CreateCredential", "DeleteCredential", "UpdateCredential", "CreateRole", "DropRole",
@@ -106,12 +132,22 @@ RidChoices(k)    == IF k = "EvCreateCollection" THEN BOOLEAN ELSE {FALSE}
 \* IsReplicate set, an older MsgTimestamp, a foreign replicate id); the request must carry THIS hop's stamp.
 \* Varied only for op messages with a live parent, no injected failure and at most one list member.
 PreChoices(k, o, ms, f) == IF k \notin EvKinds /\ o = "live" /\ ~f /\ Len(ms) <= 1 THEN Pres ELSE {"none"}
+\* name mapping: varied for every kind (and the malformed packs), with lists up to two members and no earlier-hop stamp;
+\* kinds without a database / collection object (users, roles) cannot be covered
+OpTypeKinds == {"OperateUserRole", "OperatePrivilege"}
+NoObjectKinds == RbacKinds \ {"OperatePrivilege"}
+MapChoices(k, ms, p) == IF p # "none" \/ Len(ms) > 2 THEN {"none"}
+                        ELSE IF k \in NoObjectKinds \cup {"na"} THEN {"none", "other"}
+                        ELSE {"none", "cover", "other"}
+OpTypeChoices(k) == IF k \in OpTypeKinds THEN {"grant", "revoke"} ELSE {"na"}
 MessagesOf(k) ==
     {m \in [shape : {"one"}, kind : {k}, obj : ObjChoices(k), members : MemberChoices(k), fail : FailChoices,
-            schema : SchemaChoices(k), rid : RidChoices(k), salt : Salts, pre : Pres] :
-        m.pre \in PreChoices(k, m.obj, m.members, m.fail)}
-MalformedMsg(s, z) == [shape |-> s, kind |-> "na", obj |-> "live", members |-> <<>>, fail |-> FALSE, schema |-> "na",
-                       rid |-> FALSE, salt |-> z, pre |-> "none"]
+            schema : SchemaChoices(k), rid : RidChoices(k), salt : Salts, pre : Pres, map : Maps,
+            optype : OpTypeChoices(k)] :
+        /\ m.pre \in PreChoices(k, m.obj, m.members, m.fail)
+        /\ m.map \in MapChoices(k, m.members, m.pre)}
+MalformedMsg(s, z, mp) == [shape |-> s, kind |-> "na", obj |-> "live", members |-> <<>>, fail |-> FALSE, schema |-> "na",
+                           rid |-> FALSE, salt |-> z, pre |-> "none", map |-> mp, optype |-> "na"]
 
 VARIABLES cur,   \* the message of the last step
           res,   \* its observable result [calls |-> Seq(request), err |-> BOOLEAN]
@@ -120,17 +156,24 @@ VARIABLES cur,   \* the message of the last step
 vars == <<cur, res, hist>>
 view == <<cur, res, Len(hist)>>
 
-NoMsg == MalformedMsg("none", 0)
+NoMsg == MalformedMsg("none", 0, "none")
 NoRes == [calls |-> <<>>, err |-> FALSE]
 
 (* ---------------- design: the builders as built ------------------------- *)
+\* the pass-through builders (RBAC) hand the source request on; under the control switch a request whose object is
+\* covered by the mapping is rebuilt from its entity instead, and the fields outside the entity keep their zero value
+Rebuilt(m) == MapRebuildLossy /\ m.map = "cover" /\ m.kind \in OpTypeKinds
+SentOpType(m) == IF Rebuilt(m) THEN "grant" ELSE m.optype
 Request(m, list) ==
     [kind  |-> CallKind(m.kind),
      rep   |-> TRUE,                                           \* msgBase / event ReplicateInfo: IsReplicate
      stamp |-> IF m.kind \in EvKinds THEN "event" ELSE "endpos",  \* MsgTimestamp = end position ts / event ts
      list  |-> list,
+     optype |-> SentOpType(m),                                 \* which of the two opposite requests is sent
      eq    |-> [g \in Req(m.kind) \cup {"ok", "schemabasic"} |->
-                    IF g = "schema" /\ SchemaLossy /\ m.schema = "v25" THEN FALSE ELSE TRUE]]
+                    IF g = "schema" /\ SchemaLossy /\ m.schema = "v25" THEN FALSE
+                    ELSE IF g = "optype" THEN SentOpType(m) = m.optype
+                    ELSE TRUE]]
 
 \* HandleOpMessagePack: pack shape check before anything else
 BuildMalformed(m) == [calls |-> <<>>, err |-> TRUE]
@@ -162,7 +205,8 @@ Step(m) == /\ cur' = m /\ res' = Build(m)
 Bounded == Len(hist) < MaxOps
 
 \* one action per builder family of channel_writer.go (the per-kind tables CallKind / Req give the request of each kind)
-DoMalformed == Bounded /\ \E s \in Malformed, z \in Salts : Step(MalformedMsg(s, z))
+DoMalformed == Bounded /\ \E s \in Malformed, z \in Salts, mp \in Maps \cap MapChoices("na", <<>>, "none") :
+                   Step(MalformedMsg(s, z, mp))
 DoDatabase  == Bounded /\ \E k \in DbKinds : \E m \in MessagesOf(k) : Step(m)
 DoRbac      == Bounded /\ \E k \in RbacKinds : \E m \in MessagesOf(k) : Step(m)
 DoCollOp    == Bounded /\ \E k \in CollKinds : \E m \in MessagesOf(k) : Step(m)
@@ -183,12 +227,18 @@ GroupOK(m, c, g, kf) ==
     \/ /\ kf /\ g = "schema" /\ m.schema = "v25"
        /\ "schemabasic" \in DOMAIN c.eq /\ c.eq["schemabasic"]
 
+\* fields added later are optional in recorded steps (older replay files)
+OpTypeOf(m) == IF "optype" \in DOMAIN m THEN m.optype ELSE "na"
+MapOf(m) == IF "map" \in DOMAIN m THEN m.map ELSE "none"
+
 ReqOK(m, c, kf) ==
     /\ c.kind = CallKind(m.kind)                        \* a request of the corresponding kind
     /\ c.rep                                            \* marked as a replication request
     /\ c.stamp \in StampsOK(m.kind)                     \* carrying the source operation's timestamp
     /\ Req(m.kind) \subseteq DOMAIN c.eq
     /\ \A g \in Req(m.kind) : GroupOK(m, c, g, kf)      \* same index / field / user / role / privilege / schema ...
+    /\ (OpTypeOf(m) # "na" /\ "optype" \in DOMAIN c     \* grant stays grant, revoke stays revoke ("the corresponding kind")
+            => c.optype = OpTypeOf(m))
     /\ (m.kind \in ListKinds =>                         \* member list = source list minus dropped members
             /\ NoDup(c.list)
             /\ SeqSet(c.list) = (IF m.obj = "dropped" THEN {} ELSE LiveIdx(m.members)))
